@@ -64,6 +64,7 @@ func NewAccessorCache(name string, cacheSize int) (*AccessorCache, error) {
 // evictFn will be invoked when an item is evicted from the cache.
 func (bc *AccessorCache) evictFn() func(uint64, *accessor) {
 	return func(_ uint64, ac *accessor) {
+		verifMark("evict", 0, ac)
 		// we don't want to block cache on close and can release accessor from cache early, while it is
 		// being closed in parallel routine
 		go func() {
@@ -139,6 +140,7 @@ func (bc *AccessorCache) GetOrLoad(
 		return nil, err
 	}
 	bc.cache.Add(height, ac)
+	verifMark("add", height, ac)
 	return rc, nil
 }
 
@@ -157,6 +159,7 @@ func (bc *AccessorCache) Remove(height uint64) error {
 	}
 	// The cache will call evictFn on removal, where accessor close will be called.
 	bc.cache.Remove(height)
+	verifMark("remove", height, ac)
 	return nil
 }
 
@@ -173,12 +176,14 @@ func (s *accessor) addRef() error {
 	defer s.lock.Unlock()
 	if s.isClosed {
 		// item is already closed and soon will be removed after all refs are released
+		verifMark("ref.denied", 0, s)
 		return ErrCacheMiss
 	}
 	if s.refs.Add(1) == 1 {
 		// there were no refs previously and done channel was closed, reopen it by recreating
 		s.done = make(chan struct{})
 	}
+	verifMark("ref+", 0, s)
 	return nil
 }
 
@@ -188,6 +193,7 @@ func (s *accessor) removeRef() {
 	if s.refs.Add(-1) <= 0 {
 		close(s.done)
 	}
+	verifMark("ref-", 0, s)
 }
 
 // close closes the accessor and removes it from the cache if it is not closed yet. It will block
@@ -201,6 +207,7 @@ func (s *accessor) close() error {
 	}
 	s.isClosed = true
 	done := s.done
+	verifMark("close.begin", 0, s)
 	s.lock.Unlock()
 
 	// wait until all references are released or timeout is reached. If timeout is reached, log an
@@ -210,7 +217,9 @@ func (s *accessor) close() error {
 	case <-time.After(defaultCloseTimeout):
 		log.Errorf("closing accessor, some readers didn't close the accessor within timeout,"+
 			" amount left: %v", s.refs.Load())
+		verifMark("close.timeout", 0, s)
 	}
+	verifMark("close.inner", 0, s)
 	if err := s.Close(); err != nil {
 		return fmt.Errorf("closing accessor: %w", err)
 	}
